@@ -14,8 +14,22 @@
   lift_x, Q = P + t·G, parity; Base/C01_SecpFast.lean for speed) instead of gocoin's answer, so that "non-liftable internal key accepted"
   shows up as a difference between the implementation and the rules.
 
+  SIGNATURE DIGESTS OF THE REFERENCE.  The MODEL runs with the digests the real Tx.SignatureHash / WitnessSigHash /
+  TaprootSigHash returned (table, as above). The SPEC does not: it computes the legacy / BIP143 / BIP341 digest of
+  the spending transaction itself (Spec/ScriptSigRef.lean over Spec/SigHash.lean — written from the specifications),
+  so that a sighash function of the tree that hashes something else than the rules say shows up as a difference
+  between the implementation's verdict and the rules' verdict. The harness hands the whole transaction over with
+  `tx …` before `verify` / `eval` / `refsig` (these are refused with `bad-op` when no transaction is set).
+
   Requests (byte strings hex, "-" = empty; `<opt>` is hex or the word none):
-    reset                                                              -> ok
+    reset                                                              -> ok     (empties the table, keeps the tx)
+    tx <idx> <version> <locktime> <nin> {<prevhash> <vout> <sequence> <spentValue> <spentScript>}×nin
+       <nout> {<value> <script>}×nout                                  -> ok     (scriptSigs / witnesses are not part
+                                                                                  of any of the three messages)
+    refsig sigl <scriptCode> <ht>                                      -> <digest> | undef
+    refsig sigw <scriptCode> <ht>                                      -> <digest> | undef
+    refsig sigt <annex:opt (the annex itself)> <tapleaf> <codesepPos> <ht> <script:0|1> -> <digest> | -   (- = BIP341
+                                                                                  defines no message)
     def sigl <scriptCode> <ht> <digest>                                -> ok
     def sigw <scriptCode> <ht> <digest>                                -> ok
     def sigt <annexHash:opt> <tapleaf> <codesepPos> <ht> <script:0|1> <digest> -> ok
@@ -42,12 +56,14 @@
 -/
 import GocoinV.Model.ScriptVerify
 import GocoinV.Spec.Script
+import GocoinV.Spec.ScriptSigRef
 import GocoinV.Base.Sha256
 import GocoinV.Base.Ripemd160
 import GocoinV.Base.C01_Sha1
 import GocoinV.Base.C01_SecpFast
 import GocoinV.Base.Proto
 open GocoinV GocoinV.Script
+open GocoinV.Script.SigRef (FullTx withRefSigHash)
 
 abbrev Table := List (Query × Bytes)
 
@@ -122,13 +138,14 @@ def specRun (O : Oracles) (tx : TxCtx) (pk : Bytes) (flags : Nat) (q : ScriptSpe
   | .error (.NEED qq) => .error qq
   | .error e => .ok (errName e)
 
-def doVerify (t : Table) (flags : Nat) (tx : TxCtx) (pk : Bytes) : String :=
+def doVerify (t : Table) (F : FullTx) (flags : Nat) (tx : TxCtx) (pk : Bytes) : String :=
   let O := mkOracles t
   match verifyTxScript O tx pk flags with
   | .need q => "need " ++ queryStr q
   | m =>
     let ms := match m with | .ok _ => "ok" | .fail => "fail" | .panic => "panic" | .need _ => "need"
-    let Os := withRefTweak O
+    let Or := withRefSigHash O F tx.witness   -- the reference's own legacy / BIP143 / BIP341 digests
+    let Os := withRefTweak Or
     match specRun Os tx pk flags {} with
     | .error q => "need " ++ queryStr q
     | .ok ss =>
@@ -145,13 +162,13 @@ def doVerify (t : Table) (flags : Nat) (tx : TxCtx) (pk : Bytes) : String :=
         | .error q => "need " ++ queryStr q
         | .ok s2 =>
           if (ms == "ok") == (s2 == "OK") then s!"res model={ms} spec={ss} class=taproot-undefined-hashtype" else
-          match specRun O tx pk flags {} with
+          match specRun Or tx pk flags {} with
           | .error q => "need " ++ queryStr q
           | .ok s3 =>
             if (ms == "ok") == (s3 == "OK") then s!"res model={ms} spec={ss} class=taproot-nonliftable-internal-key"
             else s!"res model={ms} spec={ss} class=none"
 
-def doEval (t : Table) (flags : Nat) (sv : SigVersion) (tx : TxCtx) (script : Bytes) (annex : Option Bytes)
+def doEval (t : Table) (F : FullTx) (flags : Nat) (sv : SigVersion) (tx : TxCtx) (script : Bytes) (annex : Option Bytes)
     (leaf : Bytes) (weight : Int) (items : List Bytes) : String :=
   let O := mkOracles t
   let stack := items.reverse
@@ -160,7 +177,7 @@ def doEval (t : Table) (flags : Nat) (sv : SigVersion) (tx : TxCtx) (script : By
   | .need q => "need " ++ queryStr q
   | m =>
     let ms := match m with | .ok s => itemsStr s | _ => "fail"
-    let env : ScriptSpec.Env := ⟨O, tx, ScriptSpec.Flags.ofMask flags, sv, {}, leaf, annex⟩
+    let env : ScriptSpec.Env := ⟨withRefSigHash O F tx.witness, tx, ScriptSpec.Flags.ofMask flags, sv, {}, leaf, annex⟩
     match ScriptSpec.evalScript env script stack weight with
     | .error (.NEED q) => "need " ++ queryStr q
     | .error e => s!"res model={ms} spec={errName e}"
@@ -170,7 +187,7 @@ def txOf (ver lt sq idx nouts : String) (sigScr : Bytes) (wit : List Bytes) : Op
   pure { version := ← ver.toNat?, lockTime := ← lt.toNat?, sequence := ← sq.toNat?, idx := ← idx.toNat?,
          nOuts := ← nouts.toNat?, sigScript := sigScr, witness := wit }
 
-def step (t : Table) (toks : List String) : Table × String :=
+def stepT (F? : Option FullTx) (t : Table) (toks : List String) : Table × String :=
   let bad := (t, "bad-op")
   match toks with
   | ["reset"] => ([], "ok")
@@ -205,17 +222,17 @@ def step (t : Table) (toks : List String) : Table × String :=
     match flags.toNat?, Hex.decode sigScr, Hex.decode pk, nwit.toNat?, decodeAll ws with
     | some flags, some sigScr, some pk, some nwit, some ws =>
       if ws.length != nwit then bad else
-      match txOf ver lt sq idx nouts sigScr ws with
-      | some tx => (t, doVerify t flags tx pk)
-      | none => bad
+      match txOf ver lt sq idx nouts sigScr ws, F? with
+      | some tx, some F => (t, doVerify t F flags tx pk)
+      | _, _ => bad
     | _, _, _, _, _ => bad
   | "eval" :: flags :: sv :: ver :: lt :: sq :: idx :: nouts :: script :: annex :: leaf :: weight :: n :: items =>
     match flags.toNat?, svOf sv, Hex.decode script, optDec annex, Hex.decode leaf, weight.toInt?, n.toNat?, decodeAll items with
     | some flags, some sv, some script, some annex, some leaf, some weight, some n, some items =>
       if items.length != n then bad else
-      match txOf ver lt sq idx nouts [] [] with
-      | some tx => (t, doEval t flags sv tx script annex leaf weight items)
-      | none => bad
+      match txOf ver lt sq idx nouts [] [], F? with
+      | some tx, some F => (t, doEval t F flags sv tx script annex leaf weight items)
+      | _, _ => bad
     | _, _, _, _, _, _, _, _ => bad
   | ["num", b] =>
     match Hex.decode b with
@@ -268,4 +285,70 @@ def step (t : Table) (toks : List String) : Table × String :=
   | ["ripemd160", b] => match Hex.decode b with | some b => (t, Hex.encode (ripemd160 b)) | none => bad
   | _ => bad
 
-def main : IO Unit := Proto.serve ([] : Table) step
+/-! ### the transaction of the case (for the reference's signature digests) -/
+
+def parseIns : Nat → List String → Option (List (Wire.TxIn × Wire.TxOut) × List String)
+  | 0, r => some ([], r)
+  | n+1, ph :: vo :: sq :: sv :: ss :: r => do
+    let ph ← Hex.decode ph
+    let ss ← Hex.decode ss
+    let i : Wire.TxIn := { prevHash := ph, prevIdx := ← vo.toNat?, scriptSig := [], sequence := ← sq.toNat? }
+    let o : Wire.TxOut := { value := ← sv.toNat?, pkScript := ss }
+    let (rest, r') ← parseIns n r
+    pure ((i, o) :: rest, r')
+  | _, _ => none
+
+def parseOuts : Nat → List String → Option (List Wire.TxOut × List String)
+  | 0, r => some ([], r)
+  | n+1, v :: sc :: r => do
+    let sc ← Hex.decode sc
+    let (rest, r') ← parseOuts n r
+    pure ({ value := ← v.toNat?, pkScript := sc } :: rest, r')
+  | _, _ => none
+
+def parseTx : List String → Option FullTx
+  | idx :: ver :: lt :: nin :: r => do
+    let (ins, r1) ← parseIns (← nin.toNat?) r
+    match r1 with
+    | nout :: r2 =>
+      let (outs, r3) ← parseOuts (← nout.toNat?) r2
+      if !r3.isEmpty then none else
+      let idx ← idx.toNat?
+      if idx ≥ ins.length then none else
+      pure { tx := { version := ← ver.toNat?, ins := ins.map (·.1), outs := outs, witness := none, lockTime := ← lt.toNat? },
+             spent := ins.map (·.2), idx := idx }
+    | [] => none
+  | _ => none
+
+structure OSt where
+  t : Table := []
+  F : Option FullTx := none
+
+def digestStr : Option Bytes → String
+  | some d => Hex.encode d
+  | none => "undef"
+
+def step (s : OSt) (toks : List String) : OSt × String :=
+  match toks with
+  | "tx" :: r =>
+    match parseTx r with
+    | some F => ({ s with F := some F }, "ok")
+    | none => (s, "bad-op")
+  | ["refsig", "sigl", sc, ht] =>
+    match s.F, Hex.decode sc, ht.toNat? with
+    | some F, some sc, some ht => (s, digestStr (SigRef.legacyDigest sha256d F sc ht))
+    | _, _, _ => (s, "bad-op")
+  | ["refsig", "sigw", sc, ht] =>
+    match s.F, Hex.decode sc, ht.toNat? with
+    | some F, some sc, some ht => (s, digestStr (SigRef.witV0Digest sha256d F sc ht))
+    | _, _, _ => (s, "bad-op")
+  | ["refsig", "sigt", a, l, c, h, sp] =>
+    match s.F, optDec a, Hex.decode l, c.toNat?, h.toNat? with
+    | some F, some a, some l, some c, some h =>
+      if sp == "0" || sp == "1" then (s, Hex.encode (SigRef.tapDigest sha256 F a l c h (sp == "1"))) else (s, "bad-op")
+    | _, _, _, _, _ => (s, "bad-op")
+  | _ =>
+    let (t', r) := stepT s.F s.t toks
+    ({ s with t := t' }, r)
+
+def main : IO Unit := Proto.serve ({} : OSt) step
